@@ -168,6 +168,17 @@ NameAt(j) ==
       c0 == Form(f, PlainAcct(Mn2), ch, <<79, j>>)
   IN  CItem("file_names", [c0 EXCEPT !.inp = @ @@ [fname |-> nm]])
 
+\* ---- J: HUGE inputs (2^24 + 3, 2^26 + 19, 2^27 + 1 bytes) on every channel: the input is all the bytes -----------------
+HugeSizes == <<67108883, 16777219, 134217729>>
+HugeForms == <<13, 9, 4>>                 \* hash data, hash message, sign message
+NHugeIn == IF Thorough THEN 3 * 3 * 4 ELSE 4
+HugeInAt(j) ==
+  LET ch == ChanNo(j - 1)
+      f  == HugeForms[1 + (((j - 1) \div 4) % 3)]
+      sz == HugeSizes[1 + ((j - 1) \div 12)]
+      c0 == Form(f, PlainAcct(Mn2), ch, <<80, j>>)
+  IN  CItem("huge_input", [c0 EXCEPT !.inp = [hex |-> "", rl |-> [pre |-> <<104, 105>>, pat |-> <<(j * 37) % 256>>, rep |-> sz - 2, tail |-> <<>>]]])
+
 O1 == NSample
 O2 == O1 + NLattice
 O3 == O2 + 3 * NSessions
@@ -176,7 +187,8 @@ O5 == O4 + NBig
 O6 == O5 + NZeroKey
 O7 == O6 + NChunked
 O8 == O7 + NMagicItems
-Count == O8 + NNames
+O9 == O8 + NNames
+Count == O9 + NHugeIn
 ItemAt(g) ==
   IF g <= O1 THEN SampleAt(g)
   ELSE IF g <= O2 THEN LatticeAt(g - O1)
@@ -186,7 +198,8 @@ ItemAt(g) ==
   ELSE IF g <= O6 THEN ZeroKeyAt(g - O5)
   ELSE IF g <= O7 THEN ChunkedAt(g - O6)
   ELSE IF g <= O8 THEN MagicAt(g - O7)
-  ELSE NameAt(g - O8)
+  ELSE IF g <= O9 THEN NameAt(g - O8)
+  ELSE HugeInAt(g - O9)
 Histories == 0
 VARIABLE n
 INSTANCE GenBase
